@@ -28,7 +28,7 @@ func ZzC12() {
 	R := zz.Param("R", 1)
 	// batch 1: every append is flushed at once and the write batch is emptied again;
 	// batch 64: appended headers stay in the write batch
-	cfgIdx := []int{4, 5, 2} // large caches (see zzCfgsQuick)
+	cfgIdx := []int{4, 6, 5, 2} // large caches (see zzCfgsQuick); 6: flush per header over snapshot read transactions
 	cfg := zzCfgsQuick[cfgIdx[zz.Choice("cfg", zz.Param("CFGS", 2))]]
 	d := zzNewMemDS()
 	s := zzOpen(d, cfg)
